@@ -45,6 +45,29 @@ type cli struct {
 	rawConns []*simnet.Conn // dialer ends of the TCP connections this node opened, newest last
 }
 
+// cmWrap is the relay's connection manager: the real BasicConnMgr, except that ONE armed TagPeer call is held for
+// one virtual millisecond after an environment event (the tagged peer closing its connection) was started - the
+// long pause at a program point that the scheduler's pause rule produces only rarely. Whatever the relay holds
+// across the call (Relay.mx on the unchanged tree) stays held, so this only forces a legal schedule.
+type cmWrap struct {
+	*connmgr.BasicConnMgr
+	peer  peer.ID
+	tag   string
+	hook  func()
+	Fired int
+}
+
+func (c *cmWrap) TagPeer(p peer.ID, tag string, v int) {
+	if c.hook != nil && p == c.peer && tag == c.tag {
+		h := c.hook
+		c.hook = nil
+		c.Fired++
+		h()
+		simrt.TimeSleep(time.Millisecond)
+	}
+	c.BasicConnMgr.TagPeer(p, tag, v)
+}
+
 type aclT struct {
 	w                  *world
 	reserves, connects int
@@ -70,6 +93,7 @@ type world struct {
 	R2      *cli
 	rl      *relay.Relay
 	cm      *connmgr.BasicConnMgr
+	cmw     *cmWrap
 	svc     *svcRcmgr
 	rw      *simhost.RefusingRcmgr
 	acl     *aclT
@@ -90,6 +114,7 @@ type world struct {
 	pendingIO    *pendingIO
 	touched      map[int]bool
 	c2Seen       bool
+	racedDisc    map[int]bool // clients whose RESERVE ran concurrently with their own disconnect at least once
 	xGater       *onlyRelayed
 	relNow       map[int]bool // who had only relayed connections to the relay when the current operation started
 	everRsv      map[int]bool
@@ -204,7 +229,8 @@ func (w *world) setup() bool {
 		return false
 	}
 	w.cm = cm
-	R, err := w.mkNode(100, "5.5.5.1", 4001, &basichost.HostOpts{ConnManager: cm}, true, nil)
+	w.cmw = &cmWrap{BasicConnMgr: cm}
+	R, err := w.mkNode(100, "5.5.5.1", 4001, &basichost.HostOpts{ConnManager: w.cmw}, true, nil)
 	if err != nil {
 		o.Trouble = "relay node: " + err.Error()
 		return false
@@ -535,6 +561,18 @@ func (w *world) stopHandler(c *cli) func(network.Stream) {
 // arm installs the resource-manager / I/O fault of op (if any) right before it runs.
 func (w *world) arm(op opT, src, dst *cli) {
 	switch op.fault {
+	case faultTag:
+		t, tag := src, "relay-reservation"
+		if op.kind != opReserve {
+			tag = "relay-v2-hop"
+			if op.ioOnDst && dst != nil {
+				t = dst
+			}
+		}
+		w.cmw.peer, w.cmw.tag = t.nd.ID, tag
+		w.cmw.hook = func() {
+			simrt.GoNamed("tag-race-disconnect", func() { t.nd.Swarm.ClosePeer(w.R.nd.ID) })
+		}
 	case faultRc:
 		if op.rcSite == "SvcSpan" || op.rcSite == "SvcMemory" {
 			w.svc.arm(op.rcSite, op.rcN)
@@ -605,6 +643,9 @@ func (w *world) ipsFor(cl *cli) []string {
 func (w *world) disarm(op opT, firedBefore map[string]int) bool {
 	fired := false
 	switch op.fault {
+	case faultTag:
+		fired = w.cmw.Fired > firedBefore["tag"]
+		w.cmw.hook = nil
 	case faultRc:
 		fired = w.svc.Fired+w.rw.Fired > firedBefore["rc"]
 		w.svc.disarm()
@@ -629,5 +670,5 @@ func (w *world) firedCounts() map[string]int {
 	for _, v := range w.n.FaultsFired() {
 		n += v
 	}
-	return map[string]int{"rc": w.svc.Fired + w.rw.Fired, "io": n}
+	return map[string]int{"rc": w.svc.Fired + w.rw.Fired, "io": n, "tag": w.cmw.Fired}
 }
